@@ -496,7 +496,7 @@ EXTRA_TIERS['C15'] = _interp_extra('C15')
 EXTRA_TIERS['C16'] = _interp_extra('C16')
 GAPS['C15'] = ['every interpolation algorithm except the three 1-d fixed one-point kernels Interp1DSlinear / Interp1DLagrange2 / Interp1DLagrange3 (akima, cubic, scipy wrappers, the general recursive InterpLinear/InterpLagrange2/3 classes, 2-D/3-D fixed variants, the vectorized paths, the recursive n-d evaluation in InterpAlgorithm.evaluate): BOUNDED tier only',
                'the three 1-d kernels are proved on 4- / 4- / 5-point axes (all bracket indices enumerated; coordinates, table values and x symbolic) because their coefficient cache is a dict keyed by the bracket index; the Lagrange value / derivative identities are rational-function identities discharged by the SymPy identity back end (divisors shown non-zero by z3)',
-               'bracketing (InterpAlgorithm.bracket / searchsorted) that produces the bracket index', 'NaN coordinates (reals, assumption A2)',
+               'bracketing of the general classes (InterpAlgorithm.bracket / searchsorted in the vectorized paths); the hunt + bisection InterpAlgorithmFixed._bracket_dim of the fixed classes is proved (three inductive loop invariants), its per-dimension wrapper bracket() that stores last_index is not', 'NaN coordinates (reals, assumption A2)',
                'MetaModelStructuredComp / MetaModelSemiStructuredComp / SplineComp wiring: bounded tier only']
 GAPS['C16'] = ['derivatives of every algorithm except the three 1-d fixed one-point kernels (slinear, lagrange2, lagrange3): BOUNDED tier only', 'd/dvalues (training gradients) and spline-mode gradients: BOUNDED tier only',
                'requests for table gradients that raise (methods without d/dvalues support; akima with more than one table dimension) return no derivative and are outside the statement: counted in the evidence, not failures',
